@@ -132,35 +132,36 @@ Gone(S) == /\ cs' = cs \ S
 
 CSame == cs' = cs /\ lastS' = lastS
 
+CCase(r) ==
+  CASE r.a = "NewAppender" -> CSame /\ cnt' = [cnt EXCEPT !.apps = @ + 1]
+    [] r.a = "Append" ->
+         \* the fast path (no out-of-order window, t below the appender's window) returns before the series is looked up
+         LET creates == ~(W = 0 /\ r.t < r.mv) /\ r.s \notin cs IN
+         /\ cs' = IF creates THEN cs \cup {r.s} ELSE cs
+         /\ lastS' = lastS
+         /\ cnt' = IF creates THEN [cnt EXCEPT !.series = @ + 1] ELSE cnt
+    [] r.a = "Commit" ->
+         LET p == FoldSeries(cnt, lastS, {s \in Series : Len(ino'[s]) > Len(ino[s])}) IN
+         /\ cs' = cs /\ lastS' = p[2] /\ cnt' = [p[1] EXCEPT !.apps = @ - 1]
+    [] r.a = "Rollback" -> CSame /\ cnt' = [cnt EXCEPT !.apps = @ - 1]
+    [] r.a = "Compact" ->
+         \* truncateMemory -> gc only when a head block was cut; series without chunks go
+         IF r.nblocks > 0 THEN Gone({s \in cs : ~HasData(ino', ooh', oom', s)}) ELSE CSame /\ cnt' = cnt
+    [] r.a = "CompactOOO" ->
+         \* truncateOOO -> gc only when out-of-order chunks were compacted
+         IF \E s \in Series : OOOAll(s) # {} THEN Gone({s \in cs : ~HasData(ino', ooh', oom', s)}) ELSE CSame /\ cnt' = cnt
+    [] r.a \in {"EvictSel", "EvictStale"} -> Gone({s \in Series : ino[s] # <<>> /\ ino'[s] = <<>>})
+    [] r.a = "Reopen" ->
+         \* replay rebuilds every series that still has data and counts as it appends
+         /\ cs' = {s \in Series : HasData(ino', ooh', oom', s)}
+         /\ lastS' = [s \in Series |-> IF ino'[s] # <<>> THEN TypedLast(ino'[s], 1, "none") ELSE NoneS]
+         /\ cnt' = Want(cs', lastS', app')
+    [] OTHER -> CSame /\ cnt' = cnt
+
 CUpdate ==
   IF hist' = hist THEN UNCHANGED cvars
-  ELSE
-   /\ chist' = Append(chist, Want(cs', lastS', app'))
-   /\ LET r == hist'[Len(hist')] IN
-      CASE r.a = "NewAppender" -> CSame /\ cnt' = [cnt EXCEPT !.apps = @ + 1]
-        [] r.a = "Append" ->
-             \* the fast path (no out-of-order window, t below the appender's window) returns before the series is looked up
-             LET creates == ~(W = 0 /\ r.t < r.mv) /\ r.s \notin cs IN
-             /\ cs' = IF creates THEN cs \cup {r.s} ELSE cs
-             /\ lastS' = lastS
-             /\ cnt' = IF creates THEN [cnt EXCEPT !.series = @ + 1] ELSE cnt
-        [] r.a = "Commit" ->
-             LET p == FoldSeries(cnt, lastS, {s \in Series : Len(ino'[s]) > Len(ino[s])}) IN
-             /\ cs' = cs /\ lastS' = p[2] /\ cnt' = [p[1] EXCEPT !.apps = @ - 1]
-        [] r.a = "Rollback" -> CSame /\ cnt' = [cnt EXCEPT !.apps = @ - 1]
-        [] r.a = "Compact" ->
-             \* truncateMemory -> gc only when a head block was cut; series without chunks go
-             IF r.nblocks > 0 THEN Gone({s \in cs : ~HasData(ino', ooh', oom', s)}) ELSE CSame /\ cnt' = cnt
-        [] r.a = "CompactOOO" ->
-             \* truncateOOO -> gc only when out-of-order chunks were compacted
-             IF \E s \in Series : OOOAll(s) # {} THEN Gone({s \in cs : ~HasData(ino', ooh', oom', s)}) ELSE CSame /\ cnt' = cnt
-        [] r.a \in {"EvictSel", "EvictStale"} -> Gone({s \in Series : ino[s] # <<>> /\ ino'[s] = <<>>})
-        [] r.a = "Reopen" ->
-             \* replay rebuilds every series that still has data and counts as it appends
-             /\ cs' = {s \in Series : HasData(ino', ooh', oom', s)}
-             /\ lastS' = [s \in Series |-> IF ino'[s] # <<>> THEN TypedLast(ino'[s], 1, "none") ELSE NoneS]
-             /\ cnt' = Want(cs', lastS', app')
-        [] OTHER -> CSame /\ cnt' = cnt
+  ELSE /\ CCase(hist'[Len(hist')])
+       /\ chist' = Append(chist, Want(cs', lastS', app'))
 
 \* (a history may start on a head that already holds samples: Db.tla PreT)
 CInit == /\ Init
